@@ -1,0 +1,40 @@
+//go:build verif
+
+package subscriptions
+
+import (
+	"github.com/vechain/thor/v2/api"
+	"github.com/vechain/thor/v2/chain"
+	"github.com/vechain/thor/v2/thor"
+)
+
+// VerifReader is the message reader interface the subscription handler pipes to a client.
+type VerifReader interface {
+	Read() ([]any, bool, error)
+}
+
+// VerifCaches are the message caches the handler shares between all subscribers.
+type VerifCaches struct {
+	beat  *messageCache[api.BeatMessage]
+	beat2 *messageCache[api.Beat2Message]
+}
+
+// VerifNewCaches creates the shared caches the way New does.
+func VerifNewCaches(backtraceLimit uint32) *VerifCaches {
+	return &VerifCaches{
+		beat:  newMessageCache[api.BeatMessage](backtraceLimit),
+		beat2: newMessageCache[api.Beat2Message](backtraceLimit),
+	}
+}
+
+// VerifNewReader creates the block / beat / beat2 reader of a subscriber starting at position.
+func VerifNewReader(kind string, repo *chain.Repository, position thor.Bytes32, c *VerifCaches) VerifReader {
+	switch kind {
+	case "beat":
+		return newBeatReader(repo, position, c.beat)
+	case "beat2":
+		return newBeat2Reader(repo, position, c.beat2)
+	default:
+		return newBlockReader(repo, position)
+	}
+}
